@@ -29,6 +29,16 @@ OBLIGATIONS = [
         desc="same batch where each position may also be a malformed encoding (no signature, non-v0 signature or key prefix, undecodable key, signed non-JSON body, "
              "unsigned (msg, None, None), text or integer key, tuple shorter than 3, not a tuple) "
              "run through the real unsign_from_foolscap: every good announcement in the batch is still stored and delivered; bad ones never are"),
+    chx("batch_signed_content", "C34_h", "h_batch_signed_content",
+        cases={"quick": [{"kinds": [0, k], "_label": lab} for (k, lab) in ((1, "list_body"), (2, "no_service_name"), (3, "nickname_int"),
+                                                                             (4, "furl_int"), (5, "furl_str"), (6, "seqnum_str_then_int"))],
+               "thorough": [{"_label": "all"}]},
+        timeout={"quick": 120, "thorough": 1200},
+        desc="got_announcements (unstripped) with 3 positions from 3 keys, each a good announcement or a CORRECTLY SIGNED one with malformed content "
+             "(body is a list; dict without service-name; nickname 5; anonymous-storage-FURL 7 or 'x'; seqnum 'x' followed by seqnum 2 from the same key), "
+             "signature bit symbolic per position: every good announcement of another key is still stored and delivered exactly once; forged ones and "
+             "non-announcements yield nothing; for odd-field dicts anything delivered is the signed body, verified, in order, and agrees with the stored entry",
+        outside="whether odd-field announcements should be accepted at all (the oracle allows either)"),
     chx("key_identity", "C34_h", "h_key_identity", timeout={"quick": 120, "thorough": 600},
         desc="got_announcements -> real unsign_from_foolscap -> real ed25519.verifying_key_from_string, ideal signature check keyed on the DECODED key: "
              "seqnum 2 under the canonical key string and a replay of seqnum 1 under another spelling of the same key (upper/mixed case, surrounding blanks, "
